@@ -22,4 +22,12 @@ func init() {
 		Assumptions: []string{"go/types + go/cfg model of the working tree"},
 		ThoroughConfigs: []string{"elpscheck", "386"},
 	})
+	registerProp(PropSpec{ID: "C04",
+		Rules: []string{"ENTRY.begin-eval", "LIMIT.result-returned", "HEIGHT.push-check", "HEIGHT.check-chain", "HEIGHT.nesting-check", "POLL.eval-cycles", "POLL.int-loops", "TRO.mark-consumed",
+			"CENSUS.Runtime.steps", "CENSUS.Runtime.maxSteps", "CENSUS.Runtime.totalSteps", "CENSUS.Runtime.evalDepth", "CENSUS.Runtime.evalNesting", "CENSUS.CallStack.Frames",
+			"PAIR.nesting", "PAIR.frame"},
+		Explanation: "limit discipline as control-flow facts",
+		Assumptions: []string{"go/types + go/cfg model of the working tree"},
+		ThoroughConfigs: []string{"elpscheck", "386"},
+	})
 }
